@@ -2,7 +2,6 @@ package include
 
 import (
 	"fmt"
-	"maps"
 	"os"
 	"path/filepath"
 	"sort"
@@ -26,13 +25,21 @@ type Limits struct {
 
 type Loader struct {
 	mu     sync.RWMutex
-	cache  map[string]*ast.Journal
+	cache  map[string]*cachedJournal
 	limits Limits
+}
+
+// cachedJournal is the parse result of one included file. It holds only what
+// depends on that file's own content; the file's includes are resolved anew
+// on every load.
+type cachedJournal struct {
+	journal     *ast.Journal
+	parseErrors []LoadError
 }
 
 func NewLoader() *Loader {
 	return &Loader{
-		cache:  make(map[string]*ast.Journal),
+		cache:  make(map[string]*cachedJournal),
 		limits: DefaultLimits(),
 	}
 }
@@ -94,7 +101,7 @@ func (l *Loader) Load(path string) (*ResolvedJournal, []LoadError) {
 		}}
 	}
 
-	return l.loadWithContent(path, string(content), make(map[string]bool))
+	return l.loadWithContent(path, string(content), newLoadState(limits))
 }
 
 func (l *Loader) LoadFromContent(path, content string) (*ResolvedJournal, []LoadError) {
@@ -106,21 +113,32 @@ func (l *Loader) LoadFromContent(path, content string) (*ResolvedJournal, []Load
 			Message: fmt.Sprintf("file too large: %d bytes (max %d)", len(content), limits.MaxFileSizeBytes),
 		}}
 	}
-	return l.loadWithContent(path, content, make(map[string]bool))
+	return l.loadWithContent(path, content, newLoadState(limits))
 }
 
-func (l *Loader) loadWithContent(path, content string, visited map[string]bool) (*ResolvedJournal, []LoadError) {
-	var errors []LoadError
-	limits := l.getLimits()
+// loadState is the state of one Load / LoadFromContent call.
+type loadState struct {
+	// ancestors holds the files that are currently being included, i.e. the
+	// include stack from the root down to the file being processed. Re-entering
+	// one of them is a cycle.
+	ancestors map[string]bool
+	// loaded holds every file that is already part of the result. A file that
+	// is reached again along another acyclic path (a diamond) is not an error
+	// and is included once.
+	loaded map[string]bool
+	limits Limits
+}
 
-	if len(visited) >= limits.MaxIncludeDepth {
-		return nil, []LoadError{{
-			Kind:    ErrorCycleDetected,
-			Path:    path,
-			Message: fmt.Sprintf("include depth limit exceeded (%d)", limits.MaxIncludeDepth),
-		}}
+func newLoadState(limits Limits) *loadState {
+	return &loadState{
+		ancestors: make(map[string]bool),
+		loaded:    make(map[string]bool),
+		limits:    limits,
 	}
+}
 
+func parseJournal(path, content string) (*ast.Journal, []LoadError) {
+	var errors []LoadError
 	journal, parseErrs := parser.Parse(content)
 	for _, e := range parseErrs {
 		pos := ast.Position{
@@ -135,9 +153,27 @@ func (l *Loader) loadWithContent(path, content string, visited map[string]bool) 
 			Range:   ast.Range{Start: pos, End: pos},
 		})
 	}
+	return journal, errors
+}
+
+func (l *Loader) loadWithContent(path, content string, st *loadState) (*ResolvedJournal, []LoadError) {
+	journal, errors := parseJournal(path, content)
 
 	result := NewResolvedJournal(journal)
-	visited[path] = true
+	st.loaded[path] = true
+
+	errors = append(errors, l.loadIncludes(path, journal, st, result)...)
+	return result, errors
+}
+
+// loadIncludes follows the include directives of journal (the file at path)
+// and adds every file they reach to result. It is used for freshly parsed and
+// for cached journals alike, so a cache hit resolves exactly like a miss.
+func (l *Loader) loadIncludes(path string, journal *ast.Journal, st *loadState, result *ResolvedJournal) []LoadError {
+	var errors []LoadError
+
+	st.ancestors[path] = true
+	defer delete(st.ancestors, path)
 
 	for _, inc := range journal.Includes {
 		if IsGlobPattern(inc.Path) {
@@ -153,7 +189,7 @@ func (l *Loader) loadWithContent(path, content string, visited map[string]bool) 
 			}
 
 			for _, matchPath := range matches {
-				subErrors := l.loadSingleInclude(path, matchPath, inc.Range, visited, result)
+				subErrors := l.loadSingleInclude(path, matchPath, inc.Range, st, result)
 				errors = append(errors, subErrors...)
 			}
 			continue
@@ -170,23 +206,22 @@ func (l *Loader) loadWithContent(path, content string, visited map[string]bool) 
 			continue
 		}
 
-		subErrors := l.loadSingleInclude(path, includePath, inc.Range, visited, result)
+		subErrors := l.loadSingleInclude(path, includePath, inc.Range, st, result)
 		errors = append(errors, subErrors...)
 	}
 
-	return result, errors
+	return errors
 }
 
 func (l *Loader) loadSingleInclude(
 	basePath, includePath string,
 	incRange ast.Range,
-	visited map[string]bool,
+	st *loadState,
 	result *ResolvedJournal,
 ) []LoadError {
 	var errors []LoadError
-	limits := l.getLimits()
 
-	if visited[includePath] {
+	if st.ancestors[includePath] {
 		errors = append(errors, LoadError{
 			Kind:    ErrorCycleDetected,
 			Path:    includePath,
@@ -196,59 +231,70 @@ func (l *Loader) loadSingleInclude(
 		return errors
 	}
 
+	if st.loaded[includePath] {
+		return errors
+	}
+
+	if len(st.ancestors) >= st.limits.MaxIncludeDepth {
+		errors = append(errors, LoadError{
+			Kind:    ErrorCycleDetected,
+			Path:    includePath,
+			Message: fmt.Sprintf("include depth limit exceeded (%d)", st.limits.MaxIncludeDepth),
+			Range:   incRange,
+		})
+		return errors
+	}
+
 	l.mu.RLock()
 	cached, ok := l.cache[includePath]
 	l.mu.RUnlock()
-	if ok {
-		result.Files[includePath] = cached
-		result.FileOrder = append(result.FileOrder, includePath)
-		return errors
-	}
+	if !ok {
+		info, err := os.Stat(includePath)
+		if err != nil {
+			errors = append(errors, LoadError{
+				Kind:    ErrorFileNotFound,
+				Path:    includePath,
+				Message: fmt.Sprintf("cannot read included file: %v", err),
+				Range:   incRange,
+			})
+			return errors
+		}
 
-	info, err := os.Stat(includePath)
-	if err != nil {
-		errors = append(errors, LoadError{
-			Kind:    ErrorFileNotFound,
-			Path:    includePath,
-			Message: fmt.Sprintf("cannot read included file: %v", err),
-			Range:   incRange,
-		})
-		return errors
-	}
+		if info.Size() > st.limits.MaxFileSizeBytes {
+			errors = append(errors, LoadError{
+				Kind:    ErrorFileTooLarge,
+				Path:    includePath,
+				Message: fmt.Sprintf("included file too large: %d bytes (max %d)", info.Size(), st.limits.MaxFileSizeBytes),
+				Range:   incRange,
+			})
+			return errors
+		}
 
-	if info.Size() > limits.MaxFileSizeBytes {
-		errors = append(errors, LoadError{
-			Kind:    ErrorFileTooLarge,
-			Path:    includePath,
-			Message: fmt.Sprintf("included file too large: %d bytes (max %d)", info.Size(), limits.MaxFileSizeBytes),
-			Range:   incRange,
-		})
-		return errors
-	}
+		incContent, err := os.ReadFile(includePath)
+		if err != nil {
+			errors = append(errors, LoadError{
+				Kind:    ErrorFileNotFound,
+				Path:    includePath,
+				Message: fmt.Sprintf("cannot read included file: %v", err),
+				Range:   incRange,
+			})
+			return errors
+		}
 
-	incContent, err := os.ReadFile(includePath)
-	if err != nil {
-		errors = append(errors, LoadError{
-			Kind:    ErrorFileNotFound,
-			Path:    includePath,
-			Message: fmt.Sprintf("cannot read included file: %v", err),
-			Range:   incRange,
-		})
-		return errors
-	}
-
-	subResult, subErrors := l.loadWithContent(includePath, string(incContent), visited)
-	errors = append(errors, subErrors...)
-
-	if subResult != nil && subResult.Primary != nil {
+		journal, parseErrs := parseJournal(includePath, string(incContent))
+		cached = &cachedJournal{journal: journal, parseErrors: parseErrs}
 		l.mu.Lock()
-		l.cache[includePath] = subResult.Primary
+		l.cache[includePath] = cached
 		l.mu.Unlock()
-		result.Files[includePath] = subResult.Primary
-		result.FileOrder = append(result.FileOrder, includePath)
-		maps.Copy(result.Files, subResult.Files)
-		result.FileOrder = append(result.FileOrder, subResult.FileOrder...)
 	}
+
+	st.loaded[includePath] = true
+	result.Files[includePath] = cached.journal
+	result.FileOrder = append(result.FileOrder, includePath)
+	errors = append(errors, cached.parseErrors...)
+
+	// Cached or not, the file's own includes are followed on every load.
+	errors = append(errors, l.loadIncludes(includePath, cached.journal, st, result)...)
 
 	return errors
 }
@@ -287,7 +333,7 @@ func (l *Loader) expandGlob(basePath, pattern string) ([]string, error) {
 func (l *Loader) ClearCache() {
 	l.mu.Lock()
 	defer l.mu.Unlock()
-	l.cache = make(map[string]*ast.Journal)
+	l.cache = make(map[string]*cachedJournal)
 }
 
 func (l *Loader) InvalidateFile(path string) {
